@@ -314,7 +314,7 @@ theorem ms_pad_spec (pre : List Packet) (last : Packet) (hv : ∀ p ∈ pre, Val
     extension lists (the generator's "repeat these extensions" mechanism included, via C16's
     `generate_parse_full`).  In ANY reachable state, for every valid range, `maxlen`, framing and valid
     caller extensions `exts`, with `all` = `exts` followed by the gathered extensions (see
-    `out_roundtrip_ext_partial` for the definition) non-empty: a successful output parses back to exactly
+    `out_roundtrip_ext_norepeat` for the definition) non-empty: a successful output parses back to exactly
     the selected frames, and its padding region, read by C16's extension parser, yields one entry per
     element of `all`, and for EVERY output frame `g` the entries of frame `g` are exactly the extensions of
     `all` with frame `g`, in gathering order, with identical IDs, lengths and payload bytes. -/
@@ -342,17 +342,47 @@ theorem out_roundtrip_ext_nopad (s : Rp) (hs : Reachable s) (b e : Nat) (hb : b 
     rw [padding_of_serialize]
     exact hpar cap hcap
 
-/-
-  Remaining gap of `out_roundtrip_ext` (listed in `UNPROVED` of tools/props/C07.py): calls WITH the `pad`
-  flag (`opus_packet_pad_impl` with extensions) whose gathered list makes the generator use its repeat
-  mechanism.  There the padding is `0x01 … 0x01` followed by the generator's bytes, and the iterator's
-  `repeat_data` still points at the first `0x01`; C16's reader lemma for repeat blocks (`serAll_steps`)
-  requires `repeat_data` at the start of the generated bytes.  The theorem below covers `pad` for lists in
-  C16's `NoRepeat` class.
--/
+/-- **out_roundtrip_ext** — extension carriage at full strength (code after fixes 374eedae and ff8edd7a):
+    ANY reachable state (stored paddings arbitrary: extension lists, malformed lists, plain padding), every
+    valid range, `maxlen`, framing, with or without the `pad` flag, every array of valid caller extensions,
+    no restriction on the resulting list (the generator's repeat mechanism included; built on C16's
+    `generate_parse_full` / `parse_padded_full`).  With `all` = `exts` followed by the extensions gathered
+    from the stored packets overlapping `[begin,end)` (`gathered`: parsed from each padding, nothing if it is
+    not a well-formed list, renumbered `frame + i - begin`, kept iff in `[0,end-begin)`) non-empty: a
+    successful output parses back to exactly the selected frames with the stored configuration bits, has
+    at most `maxlen` bytes (exactly `maxlen` with `pad`), and its padding region, read by the extension
+    parser of C16, yields one entry per element of `all`; for EVERY output frame `g` the entries of frame
+    `g` are exactly the extensions of `all` with frame `g`, in gathering order, with identical IDs, lengths
+    and payload bytes. -/
+theorem out_roundtrip_ext (s : Rp) (hs : Reachable s) (b e : Nat) (hb : b < e) (he : e ≤ s.nbFrames)
+    (exts : Array Ext) (hvx : AllValid exts (e - b))
+    (hpos : 0 < (exts ++ (gathered (s.pads.take e) 0 b e).toArray).size)
+    (maxlen : Int) (sd pad : Bool) (bs : Bytes) (h : outRangeImpl s b e maxlen sd pad exts = .ok bs)
+    (rest : Bytes) (hrest : sd = false → rest = []) :
+    ∃ r, parseImpl sd (bs ++ rest) = .ok r ∧
+      slices (bs ++ rest) r.payloadOffset r.sizes = selFrames s b e ∧ r.count = e - b ∧
+      r.toc / 4 = s.toc / 4 ∧ r.packetOffset = bs.length ∧ (bs.length : Int) ≤ maxlen ∧
+      (pad = true → (bs.length : Int) = maxlen) ∧
+      ∀ cap : Int, ((exts ++ (gathered (s.pads.take e) 0 b e).toArray).size : Int) ≤ cap →
+        ∃ refs, Ext.parse (((bs ++ rest).drop r.padOffset).take r.padLen)
+                  (((bs ++ rest).drop r.padOffset).take r.padLen).length cap ((e - b : Nat) : Int) = .ok refs ∧
+          refs.length = (exts ++ (gathered (s.pads.take e) 0 b e).toArray).size ∧
+          ∀ g, (refs.filter (fun x => x.frame = g)).map (ExtRef.toExt (((bs ++ rest).drop r.padOffset).take r.padLen)) =
+            (allOf (exts ++ (gathered (s.pads.take e) 0 b e).toArray) g).map normExt := by
+  obtain ⟨p, hv, hbs, hfr, htoc, hle, hpl, hpar⟩ :=
+    outRangeImpl_ext_full_pad s (reachable_inv hs) (reachable_padsOk hs) b e hb he exts hvx hpos maxlen sd pad bs h
+  obtain ⟨hparse, hsl⟩ := parse_serialize_frames sd p hv rest hrest
+  subst hbs
+  refine ⟨view sd p, hparse, by rw [hsl, hfr], ?_, htoc, rfl, hle, hpl, ?_⟩
+  · simp only [view]; rw [hfr]; exact (selFrames_ok s (reachable_inv hs) b e hb he).2
+  · intro cap hcap
+    rw [padding_of_serialize]
+    exact hpar cap hcap
 
-/-- Clause "packets carrying extensions are merged / split correctly" (extension carriage, code after
-    fixes 374eedae and ff8edd7a), for extension lists on which the generator repeats nothing.
+/-- Extension carriage, sharper conclusion for lists on which the generator repeats nothing (this was the
+    first proved instance; it is kept because it pins down the WHOLE parsed list and the exact padding bytes
+    `0x01… ++ serBytes`, not only the per-frame sublists; nothing is missing relative to its own statement —
+    the unrestricted theorem is `out_roundtrip_ext` above).
     In ANY reachable state (stored paddings arbitrary: extension lists, malformed lists, plain padding),
     for every valid range, `maxlen`, framing, `pad` flag and caller-supplied valid extensions `exts`:
     let `all` = `exts` followed by the extensions gathered from the stored packets that overlap
@@ -363,7 +393,7 @@ theorem out_roundtrip_ext_nopad (s : Rp) (hs : Reachable s) (b e : Nat) (hb : b 
     the parser reports, read by the extension parser of C16, yields exactly `all` stably sorted by frame
     (`sortedFrom`: frame 0's extensions in gathering order, then frame 1's, …) — same count, IDs, frame
     numbers, lengths and payload bytes. -/
-theorem out_roundtrip_ext_partial (s : Rp) (hs : Reachable s) (b e : Nat) (hb : b < e) (he : e ≤ s.nbFrames)
+theorem out_roundtrip_ext_norepeat (s : Rp) (hs : Reachable s) (b e : Nat) (hb : b < e) (he : e ≤ s.nbFrames)
     (exts : Array Ext) (hvx : AllValid exts (e - b))
     (hpos : 0 < (exts ++ (gathered (s.pads.take e) 0 b e).toArray).size)
     (hnr : NoRepeat (exts ++ (gathered (s.pads.take e) 0 b e).toArray) (e - b))
@@ -635,7 +665,7 @@ example : ∃ r, parseImpl false pkA = .ok r ∧
 example : serialize false (outPacket 0x80 [[1, 2, 3]] 9 false true) = [0x83, 0x41, 3, 1, 2, 3, 0, 0, 0] := by
   decide +kernel
 
-/-! #### extension carriage: hypotheses of `out_roundtrip_ext_partial` are satisfiable -/
+/-! #### extension carriage: hypotheses of `out_roundtrip_ext_norepeat` are satisfiable -/
 
 /-- (a) a caller-supplied extension for frame 0 on the 4-frame history above -/
 def exE : Array Ext := #[{ id := 5, frame := 0, data := [7], len := 1 }]
